@@ -14,6 +14,7 @@ C12 — line-protocol driver of the model (core only). One op per line, payloads
 import OG.C12.Good
 import OG.C12.WireDriver
 import OG.C12.Stmt
+import OG.C12.Rewrite
 
 namespace OG.C12
 open OG.Gen.C12
@@ -227,6 +228,29 @@ def sortsAnswer (arg : String) : String :=
       | none => "err"
     "pr " ++ hexOfStr printed ++ " | s2 " ++ s2
 
+/-- `cexpr <hex>`: the condition as planned, what `ConditionExpr` makes of it (time comparisons taken
+out), its `String()` and what the store re-parses. -/
+def cexprAnswer (text : Str) : String :=
+  match yaccLex (normInput text) with
+  | none => "reject"
+  | some toks =>
+    match yaccParse toks with
+    | none => "reject"
+    | some e =>
+      if !numToksInDomain toks || !inDomain e then "unmodelled"
+      else
+        match conditionExprM e with
+        | .unmodelled => "unmodelled"
+        | .err => "t1 " ++ dump e ++ " | r err"
+        | .gone => "t1 " ++ dump e ++ " | r nil"
+        | .keep e' =>
+          let printed := render e'
+          let t2 := match parseExprChars printed with
+            | some e2 => dump e2
+            | none => "err"
+          let pr := if hasBigSet e' then "-" else hexOfStr printed
+          "t1 " ++ dump e ++ " | r " ++ dump e' ++ " | pr " ++ pr ++ " | t2 " ++ t2
+
 def step (line : String) : String :=
   match (line.trimAscii.toString.splitOn " ").filter (· ≠ "") with
   | ["expr", h] =>
@@ -244,6 +268,12 @@ def step (line : String) : String :=
     | some text => fieldsAnswer text
     | none => "bad-op"
   | ["sorts", a] => sortsAnswer a
+  | ["cexpr", h] =>
+    match unhex h with
+    | some text => cexprAnswer text
+    | none => "bad-op"
+  | "xcexpr" :: _ => "skip"
+  | "xprep" :: _ => "skip"
   | ["pe", h] =>
     match unhex h with
     | some text =>
